@@ -1,7 +1,7 @@
 #!/bin/bash
 # tools/runall.sh [tier] : run every check registered in MANIFEST.json (in parallel), print one summary line each
 tier=${1:-quick}
-cd /verif
+cd "$(dirname "$0")/.."
 ids=$(python3 -c "import json; print(' '.join(c['property_id'] for c in json.load(open('MANIFEST.json'))['checks']))")
 (cd lean && lake build lasio_driver >/dev/null 2>&1)
-echo $ids | tr ' ' '\n' | xargs -P 6 -I{} bash -c "out=\$(timeout 3000 ./check {} --tier $tier 2>&1); rc=\$?; echo \"{} exit=\$rc \$(echo \"\$out\" | grep -c '^KNOWN-FINDING') known; \$(echo \"\$out\" | grep -m1 '^VIOLATION\|^INFRA' ) \$(echo \"\$out\" | tail -1 | cut -c1-150)\""
+echo $ids | tr ' ' '\n' | xargs -P ${PAR:-6} -I{} bash -c "out=\$(timeout 3000 ./check {} --tier $tier 2>&1); rc=\$?; echo \"{} exit=\$rc \$(echo \"\$out\" | grep -c '^KNOWN-FINDING') known; \$(echo \"\$out\" | grep -m1 '^VIOLATION\|^INFRA' ) \$(echo \"\$out\" | tail -1 | cut -c1-150)\""
